@@ -239,6 +239,9 @@ pub fn run_generated(check: &dyn Check, cases: u64, seed: u64, threads: usize) -
                                 if known.iter().any(|k| *k == sig) {
                                     return Ok(());
                                 }
+                                if counting.get() && std::env::var("VERIF_DEBUG").is_ok() {
+                                    eprintln!("FIRST FAILURE {sig}: {}", detail.chars().take(600).collect::<String>());
+                                }
                                 counting.set(false);
                                 Err(TestCaseError::fail(format!("{sig}: {detail}")))
                             }
@@ -251,7 +254,12 @@ pub fn run_generated(check: &dyn Check, cases: u64, seed: u64, threads: usize) -
                         let out = check.eval(&case, &mut ctx_cell.borrow_mut());
                         let (signature, detail) = match out.verdict {
                             Verdict::Fail(s, d) => (s, d),
-                            other => ("unstable".to_string(), format!("shrunk case no longer fails: {:?}", other)),
+                            other => {
+                                if std::env::var("VERIF_DEBUG").is_ok() {
+                                    eprintln!("UNSTABLE case: {}\nverdict now: {:?}", case, other);
+                                }
+                                ("unstable".to_string(), format!("shrunk case no longer fails: {:?}", other))
+                            }
                         };
                         failures.lock().unwrap().push(Failure { signature, detail, case });
                     } else if let Err(TestError::Abort(r)) = result {
@@ -268,6 +276,12 @@ pub fn run_generated(check: &dyn Check, cases: u64, seed: u64, threads: usize) -
     // smallest explicit case first
     fs.sort_by_key(|f| f.case.to_string().len());
     let stats = std::mem::take(&mut *merged.lock().unwrap());
+    let mut stats = stats;
+    let unstable = fs.iter().filter(|f| f.signature == "unstable").count() as u64;
+    if unstable > 0 {
+        // a failure that does not reproduce on its own shrunk case: never a violation, but the run is not clean
+        *stats.inconclusive.entry("unstable failure (did not reproduce when re-evaluated)".into()).or_insert(0) += unstable.max(stats.evaluations / 5);
+    }
     RunResult { stats, failure: fs.into_iter().find(|f| f.signature != "unstable") }
 }
 
